@@ -33,12 +33,18 @@ class EventTriggerDecorator(TriggerDecorator, ExpressionDecorator):
 
     async def _event_callback(self, event: Event) -> None:
         _LOGGER.debug("Event trigger received: %s %s", type(event), event)
-        func_args = {
-            "trigger_type": "event",
-            "event_type": event.event_type,
-            "context": event.context,
-        }
-        func_args.update(event.data)
+        #
+        # the event data comes first: a key of the data named like one of the trigger's own
+        # variables must not replace it (the context is the parent of whatever the function does)
+        #
+        func_args = dict(event.data)
+        func_args.update(
+            {
+                "trigger_type": "event",
+                "event_type": event.event_type,
+                "context": event.context,
+            }
+        )
         if self.has_expression():
             if not await self.check_expression_vars(func_args):
                 return
